@@ -329,23 +329,41 @@ func rulesC09(c *Ctx) {
 		for _, w := range hs.writesToVar(hs.Body, ctr, false) {
 			wv := g.VertexOf(w)
 			guards := g.GuardsAt(wv)
+			// "progress" = the cursor returned by processStream is non-empty and differs from the previous cursor. Decided by
+			// evaluating the branch conditions under assumptions about those two comparisons, so `if a && b {reset} else {inc}`
+			// and `if !a || !b {inc} else {reset}` are the same thing:
+			//   reset site: unreachable when the cursor is empty, and unreachable when it equals the previous one;
+			//   increment site: unreachable when both hold.
+			cmpLeaf := func(nonEmpty, differs tri) func(ast.Expr) tri {
+				return func(e ast.Expr) tri {
+					isCur := func(x ast.Expr) bool { return cursorVar != nil && hs.ObjOf(x) == cursorVar }
+					x, y, op, ok := cmpOn(ast.Unparen(e), isCur)
+					if !ok || hs.ObjOf(x) != cursorVar || (op != token.EQL && op != token.NEQ) {
+						return triUnknown
+					}
+					var t tri = triUnknown
+					if sv, isC := hs.ConstString(y); isC && sv == "" {
+						t = nonEmpty
+					} else if prev, isLocal := hs.ObjOf(y).(*types.Var); isLocal && !prev.IsField() && types.Object(prev) != cursorVar {
+						t = differs
+					}
+					if t == triUnknown || op == token.NEQ {
+						return t
+					}
+					if t == triTrue {
+						return triFalse
+					}
+					return triTrue
+				}
+			}
 			progress := func(val bool) bool {
-				return hasAtom(guards, func(a Atom) bool {
-					if a.Val != val {
-						return false
-					}
-					b, isB := a.E.(*ast.BinaryExpr)
-					if !isB || b.Op != token.LAND {
-						return false
-					}
-					isCur := func(e ast.Expr) bool { return cursorVar != nil && hs.ObjOf(e) == cursorVar }
-					x1, y1, op1, ok1 := cmpOn(b.X, isCur)
-					x2, y2, op2, ok2 := cmpOn(b.Y, isCur)
-					s, isC := hs.ConstString(y1)
-					prev, isLocal := hs.ObjOf(y2).(*types.Var)
-					// both comparisons are about the cursor returned by processStream; the second against the previous cursor (a local)
-					return ok1 && ok2 && op1 == token.NEQ && op2 == token.NEQ && isC && s == "" && cursorVar != nil && hs.ObjOf(x1) == cursorVar && hs.ObjOf(x2) == cursorVar && isLocal && !prev.IsField() && types.Object(prev) != cursorVar
-				})
+				if cursorVar == nil {
+					return false
+				}
+				if val {
+					return !g.ReachUnder(cmpLeaf(triFalse, triUnknown), nil)[wv] && !g.ReachUnder(cmpLeaf(triUnknown, triFalse), nil)[wv] && g.ReachUnder(cmpLeaf(triTrue, triTrue), nil)[wv]
+				}
+				return !g.ReachUnder(cmpLeaf(triTrue, triTrue), nil)[wv] && g.ReachUnder(cmpLeaf(triFalse, triUnknown), nil)[wv] && g.ReachUnder(cmpLeaf(triUnknown, triFalse), nil)[wv]
 			}
 			switch st := w.(type) {
 			case *ast.AssignStmt:
